@@ -167,7 +167,7 @@ class Gen:
             return ast.List(elts=[self.expr(env, s, d - 1) for s in want[1]], ctx=ast.Load())
         if want[0] == "dic":
             self.feat.add("pack-dict")
-            return ast.Dict(keys=[C(k) for k in want[1]], values=[self.expr(env, s, d - 1) for s in want[1].values()])
+            return self.with_lookalike_keys(ast.Dict(keys=[C(k) for k in want[1]], values=[self.expr(env, s, d - 1) for s in want[1].values()]))
         if want[0] == "obj":
             cands = [e for e, s in self.sources(env, want)]
             seqs = self.sources(env, ("seq", want))
@@ -278,10 +278,25 @@ class Gen:
                 t = ast.List(elts=[self.num(env, d - 1) for _ in range(n)], ctx=ast.Load())
                 return sub(t, self.selector(env, n, d))
             keys = r.sample(["a", "b", "c", "pt"], n)
-            t = ast.Dict(keys=[C(k) for k in keys], values=[self.num(env, d - 1) for _ in keys])
+            t = self.with_lookalike_keys(ast.Dict(keys=[C(k) for k in keys], values=[self.num(env, d - 1) for _ in keys]))
             how, sel = self.dict_selector(env, keys, d)
             return attr(t, sel) if how == "attr" else sub(t, sel)
         return r.choice(src) if src else C(7)
+
+    def with_lookalike_keys(self, dnode):
+        """now and then a decoy entry is put in front of a key: a DIFFERENT string that unicode normalisation (NFKC, what python
+        applies to identifiers) maps to the same text, e.g. fullwidth 'a' - python's dict keeps them apart"""
+        if self.r.random() >= 0.12:
+            return dnode
+        i = self.r.randrange(len(dnode.keys))
+        k = dnode.keys[i].value
+        if not (isinstance(k, str) and k and "a" <= k[0] <= "z"):
+            return dnode
+        self.feat.add("lookalike-dict-key")
+        decoy = chr(ord(k[0]) - 0x61 + 0xFF41) + k[1:]
+        dnode.keys.insert(i, C(decoy))
+        dnode.values.insert(i, C(-999))
+        return dnode
 
     def selector(self, env, n, d):
         """Index for a literal of length n; hostile selectors only when enabled (C18)."""
